@@ -335,6 +335,10 @@ func panicTrace(kb int) []byte {
 	stack := make([]byte, kb<<10) //4KB
 	length := runtime.Stack(stack, true)
 	start := bytes.Index(stack, s)
+	if start < 0 {
+		// binaries built with -trimpath name the frame runtime/panic.go: keep the whole trace
+		return stack[:length]
+	}
 	stack = stack[start:length]
 	start = bytes.Index(stack, line) + 1
 	stack = stack[start:]
